@@ -1,5 +1,323 @@
 /- helper lemmas for Props/C20.lean -/
 import ForsysModel.Model.Geometry
 import ForsysModel.Model.Mesh
+import Mathlib.Tactic.Ring
+import Mathlib.Tactic.Linarith
+import Mathlib.Data.List.Rotate
+import Mathlib.Data.List.Zip
+import Mathlib.Algebra.BigOperators.Group.List.Basic
+import Mathlib.Algebra.BigOperators.Ring.List
+import Mathlib.Algebra.Order.Field.Rat
 namespace Forsys
+
+theorem rotateLeft_eq_rotate {α : Type} (l : List α) (k : Nat) : l.rotateLeft k = l.rotate k := by
+  unfold List.rotateLeft
+  simp only []
+  split
+  · rename_i h
+    match l, h with
+    | [], _ => simp
+    | [a], _ => simp [List.rotate_singleton]
+    | a :: b :: l, h => simp at h
+  · simp [List.rotate_eq_drop_append_take_mod]
+
+theorem rollR_eq_rotate {α : Type} (l : List α) : rollR l = l.rotate (l.length - 1) := by
+  unfold rollR
+  rcases List.eq_nil_or_concat l with rfl | ⟨l', a, rfl⟩
+  · simp
+  · simp
+
+theorem cyclicPairs_eq {α : Type} (l : List α) : cyclicPairs l = l.zip (l.rotate 1) := by
+  cases l with
+  | nil => simp [cyclicPairs]
+  | cons a l => simp [cyclicPairs, List.rotate_cons_succ]
+
+theorem cyclicPairs_rotate {α : Type} (l : List α) (k : Nat) :
+    cyclicPairs (l.rotate k) = (cyclicPairs l).rotate k := by
+  rw [cyclicPairs_eq, cyclicPairs_eq, List.zip_eq_zipWith, List.zip_eq_zipWith,
+    List.zipWith_rotate_distrib _ _ _ _ (by simp), List.rotate_rotate, List.rotate_rotate,
+    Nat.add_comm]
+
+theorem rollR_map {α β : Type} (f : α → β) (l : List α) : rollR (l.map f) = (rollR l).map f := by
+  simp [rollR_eq_rotate]
+
+theorem rotate_one_rotate_pred {α : Type} (l : List α) : (l.rotate 1).rotate (l.length - 1) = l := by
+  cases l with
+  | nil => simp
+  | cons a l =>
+    rw [List.rotate_rotate]
+    have : 1 + ((a :: l).length - 1) = (a :: l).length := by simp; omega
+    rw [this, List.rotate_length]
+
+/-- `zip l (rollR l)` is a rotation of the swapped cyclic pairs -/
+theorem zip_rollR {α : Type} (l : List α) :
+    l.zip (rollR l) = ((cyclicPairs l).map Prod.swap).rotate (l.length - 1) := by
+  rw [cyclicPairs_eq, rollR_eq_rotate]
+  have : (l.zip (l.rotate 1)).map Prod.swap = (l.rotate 1).zip l := by
+    rw [List.zip_swap]
+  rw [this, List.zip_eq_zipWith, List.zip_eq_zipWith, List.zipWith_rotate_distrib _ _ _ _ (by simp), rotate_one_rotate_pred]
+
+theorem zip_rollR_perm {α : Type} (l : List α) :
+    (l.zip (rollR l)).Perm ((cyclicPairs l).map Prod.swap) := by
+  rw [zip_rollR]; exact List.rotate_perm _ _
+
+theorem dot_map_rollR (f g : Pt → Rat) (ps : List Pt) :
+    dot (ps.map f) (rollR (ps.map g)) = ((cyclicPairs ps).map fun e => f e.2 * g e.1).sum := by
+  rw [rollR_map, dot, List.zipWith_map]
+  have : List.zipWith (fun a b => f a * g b) ps (rollR ps)
+      = (ps.zip (rollR ps)).map (fun e => f e.1 * g e.2) := by
+    rw [List.zip_eq_zipWith, List.map_zipWith]
+  rw [this, ((zip_rollR_perm ps).map _).sum_eq, List.map_map]
+  rfl
+
+theorem sum_map_sub' {α : Type} (l : List α) (f g : α → Rat) :
+    (l.map fun a => f a - g a).sum = (l.map f).sum - (l.map g).sum := by
+  induction l with
+  | nil => simp
+  | cons a l ih => simp [ih]; ring
+
+def eCross (e : Pt × Pt) : Rat := e.1.x * e.2.y - e.2.x * e.1.y
+
+theorem area_eq_sum (ps : List Pt) : area ps = -(1/2 : Rat) * ((cyclicPairs ps).map eCross).sum := by
+  unfold area
+  rw [dot_map_rollR (·.x) (·.y), dot_map_rollR (·.y) (·.x), ← sum_map_sub']
+  have : (fun a : Pt × Pt => a.2.x * a.1.y - a.2.y * a.1.x) = fun a => (-1 : Rat) * eCross a := by
+    funext a; unfold eCross; ring
+  rw [this, List.sum_map_mul_left]; ring
+
+theorem crossSumOpen_eq (l : List Pt) (p q : Pt) :
+    crossSumOpen (p :: l ++ [q]) = ((List.zip (p :: l) (l ++ [q])).map eCross).sum := by
+  induction l generalizing p with
+  | nil => simp [crossSumOpen, eCross]
+  | cons r l ih =>
+    have := ih r
+    simp only [List.cons_append] at this ⊢
+    rw [crossSumOpen, this]
+    simp [eCross]
+
+theorem shoelace2_eq_sum (ps : List Pt) : shoelace2 ps = ((cyclicPairs ps).map eCross).sum := by
+  cases ps with
+  | nil => simp [shoelace2, cyclicPairs]
+  | cons p l => simp only [shoelace2, cyclicPairs]; exact crossSumOpen_eq l p p
+
+
+theorem rotate_eq_self_of_mod {α : Type} (l : List α) (k : Nat) (h : k % l.length = 0) :
+    l.rotate k = l := by
+  rw [← List.rotate_mod, h, List.rotate_zero]
+
+theorem cyclicPairs_swap {α : Type} (l : List α) :
+    (cyclicPairs l).map Prod.swap = (l.rotate 1).zip l := by
+  rw [cyclicPairs_eq, List.zip_swap]
+
+theorem cyclicPairs_reverse_rotate {α : Type} (l : List α) :
+    (cyclicPairs l.reverse).rotate (l.length - 1 % l.length)
+      = ((cyclicPairs l).map Prod.swap).reverse := by
+  rcases l with _ | ⟨a, l⟩
+  · simp [cyclicPairs]
+  generalize hl : a :: l = l at *
+  rw [cyclicPairs_swap, cyclicPairs_eq, List.zip_eq_zipWith, List.zip_eq_zipWith,
+    List.zipWith_rotate_distrib _ _ _ _ (by simp), List.reverse_zipWith (by simp),
+    List.reverse_rotate, List.rotate_rotate]
+  congr 1
+  apply rotate_eq_self_of_mod
+  simp only [List.length_reverse]
+  have : l.length ≠ 0 := by subst hl; simp
+  generalize l.length = n at *
+  rcases n with _ | _ | n
+  · simp at this
+  · simp
+  · rw [Nat.mod_eq_of_lt (by omega : 1 < n + 1 + 1)]
+    have : 1 + (n + 1 + 1 - 1) = n + 1 + 1 := by omega
+    rw [this, Nat.mod_self]
+
+theorem cyclicPairs_reverse_perm' {α : Type} (l : List α) :
+    (cyclicPairs l.reverse).Perm ((cyclicPairs l).map Prod.swap) :=
+  ((List.rotate_perm _ _).symm.trans (by rw [cyclicPairs_reverse_rotate])).trans
+    (List.reverse_perm _)
+
+theorem cyclicPairs_map {α β : Type} (f : α → β) (l : List α) :
+    cyclicPairs (l.map f) = (cyclicPairs l).map (Prod.map f f) := by
+  rw [cyclicPairs_eq, cyclicPairs_eq, ← List.map_rotate, List.zip_map]
+
+theorem cyclicPairs_fst {α : Type} (l : List α) : (cyclicPairs l).map Prod.fst = l := by
+  rw [cyclicPairs_eq, List.map_fst_zip (by simp)]
+
+theorem cyclicPairs_snd {α : Type} (l : List α) : (cyclicPairs l).map Prod.snd = l.rotate 1 := by
+  rw [cyclicPairs_eq, List.map_snd_zip (by simp)]
+
+theorem sum_cyclic_telescope {α : Type} (g : α → Rat) (l : List α) :
+    ((cyclicPairs l).map fun e => g e.2).sum = ((cyclicPairs l).map fun e => g e.1).sum := by
+  have h1 : ((cyclicPairs l).map fun e => g e.2) = (l.rotate 1).map g := by
+    rw [← cyclicPairs_snd, List.map_map]; rfl
+  have h2 : ((cyclicPairs l).map fun e => g e.1) = l.map g := by
+    conv_rhs => rw [← cyclicPairs_fst l, List.map_map]
+    rfl
+  rw [h1, h2]
+  exact ((List.rotate_perm l 1).map g).sum_eq
+
+
+theorem eCross_swap (e : Pt × Pt) : eCross e.swap = - eCross e := by
+  unfold eCross; simp
+
+theorem sum_map_neg' {α : Type} (l : List α) (f : α → Rat) :
+    (l.map fun a => - f a).sum = - (l.map f).sum := by
+  induction l with
+  | nil => simp
+  | cons a l ih => simp [ih]; ring
+
+theorem sum_eCross_swap (l : List (Pt × Pt)) :
+    ((l.map Prod.swap).map eCross).sum = - (l.map eCross).sum := by
+  rw [List.map_map, ← sum_map_neg']
+  congr 1
+  apply List.map_congr_left
+  intro e _
+  exact eCross_swap e
+
+theorem area_reverse' (ps : List Pt) : area ps.reverse = - area ps := by
+  rw [area_eq_sum, area_eq_sum, ((cyclicPairs_reverse_perm' ps).map eCross).sum_eq, sum_eCross_swap]
+  ring
+
+theorem ratSign_neg (q : Rat) : ratSign (-q) = - ratSign q := by
+  unfold ratSign
+  rcases lt_trichotomy q 0 with h | h | h
+  · have h1 : 0 < -q := by linarith
+    have h2 : ¬ 0 < q := by linarith
+    simp [h, h1, h2]
+  · subst h; simp
+  · have h1 : -q < 0 := by linarith
+    have h2 : ¬ 0 < -q := by linarith
+    simp [h, h1, h2]
+
+theorem area_rotate' (ps : List Pt) (k : Nat) : area (ps.rotateLeft k) = area ps := by
+  rw [rotateLeft_eq_rotate, area_eq_sum, area_eq_sum, cyclicPairs_rotate,
+    ((List.rotate_perm _ k).map eCross).sum_eq]
+
+theorem area_map_translate (d : Pt) (ps : List Pt) :
+    area (ps.map fun p => ⟨p.x + d.x, p.y + d.y⟩) = area ps := by
+  rw [area_eq_sum, area_eq_sum, cyclicPairs_map, List.map_map]
+  have : (eCross ∘ Prod.map (fun p : Pt => (⟨p.x + d.x, p.y + d.y⟩ : Pt)) (fun p => ⟨p.x + d.x, p.y + d.y⟩))
+      = fun e => eCross e + ((d.x * e.2.y - d.y * e.2.x) - (d.x * e.1.y - d.y * e.1.x)) := by
+    funext e; simp [eCross]; ring
+  rw [this, List.sum_map_add, sum_map_sub',
+    sum_cyclic_telescope (fun p : Pt => d.x * p.y - d.y * p.x)]
+  ring
+
+theorem area_map_scale (s : Rat) (ps : List Pt) :
+    area (ps.map fun p => ⟨s * p.x, s * p.y⟩) = s * s * area ps := by
+  rw [area_eq_sum, area_eq_sum, cyclicPairs_map, List.map_map]
+  have : (eCross ∘ Prod.map (fun p : Pt => (⟨s * p.x, s * p.y⟩ : Pt)) (fun p => ⟨s * p.x, s * p.y⟩))
+      = fun e => (s * s) * eCross e := by
+    funext e; simp [eCross]; ring
+  rw [this, List.sum_map_mul_left]
+  ring
+
+
+theorem pyMod_natCast (a n : Nat) : pyMod (a : Int) n = a % n := by
+  unfold pyMod
+  rw [← Int.natCast_mod, Int.toNat_natCast]
+
+theorem pyMod_add_one (i n : Nat) : pyMod ((i : Int) + 1) n = (i + 1) % n := by
+  rw [← pyMod_natCast]; rfl
+
+theorem pyMod_sub_one (i n : Nat) (hn : 0 < n) : pyMod ((i : Int) + -1) n = (i + n - 1) % n := by
+  rw [← pyMod_natCast]
+  unfold pyMod
+  congr 1
+  have : ((i + n - 1 : Nat) : Int) = (i : Int) + -1 + (n : Int) := by omega
+  rw [this, Int.add_emod_right]
+
+theorem ratSign_cases (q : Rat) : ratSign q = 1 ∨ ratSign q = -1 ∨ ratSign q = 0 := by
+  unfold ratSign; split
+  · simp
+  · split <;> simp
+
+theorem pyMod_cancel (i n : Nat) (s : Int) (hi : i < n) :
+    pyMod ((pyMod ((i : Int) - s) n : Int) + s) n = i := by
+  have hn : (n : Int) ≠ 0 := by omega
+  unfold pyMod
+  rw [Int.toNat_of_nonneg (Int.emod_nonneg _ hn), Int.emod_add_emod, Int.sub_add_cancel,
+    ← Int.natCast_mod, Int.toNat_natCast, Nat.mod_eq_of_lt hi]
+
+theorem pyMod_cancel' (i n : Nat) (s : Int) (hi : i < n) :
+    pyMod ((pyMod ((i : Int) + s) n : Int) - s) n = i := by
+  have := pyMod_cancel i n (-s) hi
+  simpa [sub_eq_add_neg] using this
+
+
+theorem nodup_eraseDups {α : Type} [BEq α] [LawfulBEq α] (l : List α) : l.eraseDups.Nodup := by
+  induction h : l.length using Nat.strong_induction_on generalizing l with
+  | _ n ih =>
+    cases l with
+    | nil => simp
+    | cons a as =>
+      rw [List.eraseDups_cons, List.nodup_cons]
+      refine ⟨?_, ?_⟩
+      · rw [List.mem_eraseDups]; simp
+      · subst h
+        exact ih _ (Nat.lt_succ_of_le (List.length_filter_le _ _)) _ rfl
+
+theorem mem_neighbors (m : Mesh) (c : Cell) (d : Id) :
+    d ∈ m.neighbors c ↔ d ≠ c.id ∧ ∃ v ∈ c.verts, d ∈ m.ownCells v := by
+  unfold Mesh.neighbors
+  rw [(nodup_eraseDups _).mem_erase_iff, List.mem_eraseDups]
+  simp [List.mem_flatten]
+
+theorem getD_eq_getElem {α : Type} (l : List α) (i : Nat) (d : α) (h : i < l.length) :
+    l.getD i d = l[i] := by
+  simp [List.getD, h]
+
+theorem perimeterSq_pos (ps : List Pt) (h : areaSign ps = 1) :
+    perimeterSq ps = (cyclicPairs ps).map fun e => distSq e.1 e.2 := by
+  unfold perimeterSq nextIdx
+  rw [h, cyclicPairs_eq]
+  apply List.ext_getElem
+  · simp
+  · intro i h1 h2
+    have hi : i < ps.length := by simpa using h1
+    have hn : (i + 1) % ps.length < ps.length := Nat.mod_lt _ (by omega)
+    simp only [List.getElem_map, List.getElem_range, List.getElem_zip, pyMod_add_one]
+    rw [getD_eq_getElem _ _ _ hi, getD_eq_getElem _ _ _ hn, List.getElem_rotate]
+
+theorem distSq_comm (p q : Pt) : distSq p q = distSq q p := by
+  unfold distSq; ring
+
+theorem perimeterSq_neg (ps : List Pt) (h : areaSign ps = -1) :
+    (perimeterSq ps).Perm ((cyclicPairs ps).map fun e => distSq e.1 e.2) := by
+  have key : perimeterSq ps = (ps.zip (rollR ps)).map fun e => distSq e.1 e.2 := by
+    unfold perimeterSq nextIdx
+    rw [h, rollR_eq_rotate]
+    apply List.ext_getElem
+    · simp
+    · intro i h1 h2
+      have hi : i < ps.length := by simpa using h1
+      have hn : (i + ps.length - 1) % ps.length < ps.length := Nat.mod_lt _ (by omega)
+      simp only [List.getElem_map, List.getElem_range, List.getElem_zip,
+        pyMod_sub_one _ _ (by omega : 0 < ps.length)]
+      rw [getD_eq_getElem _ _ _ hi, getD_eq_getElem _ _ _ hn, List.getElem_rotate]
+      have e : i + ps.length - 1 = i + (ps.length - 1) := by omega
+      simp only [e]
+  rw [key]
+  refine ((zip_rollR_perm ps).map _).trans ?_
+  rw [List.map_map]
+  apply List.Perm.of_eq
+  apply List.map_congr_left
+  intro e _
+  exact distSq_comm _ _
+
+theorem sum_map_area (cells : List (List Pt)) :
+    (cells.map area).sum = -(1/2 : Rat) * (((cells.map cyclicPairs).flatten).map eCross).sum := by
+  induction cells with
+  | nil => simp
+  | cons c cs ih =>
+    simp only [List.map_cons, List.sum_cons, List.flatten_cons, List.map_append, List.sum_append, ih,
+      area_eq_sum]
+    ring
+
+theorem area_additive' (cells : List (List Pt)) (outline : List Pt) (inner : List (Pt × Pt))
+    (h : ((cells.map cyclicPairs).flatten).Perm (cyclicPairs outline ++ inner ++ inner.map Prod.swap)) :
+    (cells.map area).sum = area outline := by
+  rw [sum_map_area, (h.map eCross).sum_eq, area_eq_sum]
+  simp only [List.map_append, List.sum_append, sum_eCross_swap]
+  ring
+
 end Forsys
